@@ -44,10 +44,16 @@ META = {
             "runner builds patches for that hardware in the same process (api._diff_and_patch, api.patch_from_pre, "
             "Orderer.ref_insert/order_config on shipped before/after samples of the vendor, with a non-empty "
             "RefTracker as a generator run with references fills it) and loads the rulebook again through the public "
-            "get_rulebook and through a brand new provider; all digests must be equal.",
+            "get_rulebook and through a brand new provider; all digests must be equal.  SHORT NAMES: the hierarchy "
+            "clause hier_short_ok is also evaluated against the attribute set of the RUNNING code (true | false "
+            "sequences of parse_hw_model, HwDbTables.part_short_on): no prefix of a true attribute path, full or "
+            "shortened (hw.SN of hw.SN.SN5400), evaluates to False; that set is compared with the model's "
+            "all_sequences (agree), and the runner reports as a flag (plain equality of two real outputs) that it is the "
+            "same set for every model string.",
     "technique": "Coq induction over the insertion-built regex tree (finite-map view of nested dicts), Permutation "
                  "lemmas for the vendor choice, vm_compute on the regenerated table; exhaustive differential run",
-    "note": "PARTIAL. Proved: hierarchy and vendor choice (static part of P_C18).  Tested only (Python runtime "
+    "note": "PARTIAL. Proved: hierarchy and vendor choice (static part of P_C18); the short-name hierarchy clause "
+            "(hier_short_ok) is evaluated on real outputs, not proved of the model.  Tested only (Python runtime "
             "facts, cannot be theorems here): Mako rendering of *.rul/*.order/*.deploy, importlib resolution of "
             "%logic/%diff_logic/%apply_logic names, compilation of row regexes, structural equality of rulebooks from "
             "fresh providers and of the rulebook loaded before/after patch operations with references in the same "
@@ -66,6 +72,7 @@ CANONICAL_DESIGN = {
     "juniper": "Juniper", "ribbon": "Ribbon", "nokia": "Nokia", "routeros": "RouterOS", "pc": "PC",
 }
 EXTRA_CANONICAL = ["Cisco XR", "Huawei OptiXtrans DC908", "Huawei OptiXtrans"]
+ALL_ATTR: dict = {}            # tables["all"] of the last implementation run (used for violation messages only)
 UNCOVERED = ["", "Unknown device", " CE6870", "xHuawei CE6870", " Nexus 9316", "OptiXtrans", "huawei"]
 
 
@@ -353,6 +360,16 @@ def signature(case: dict, r: dict, parts: dict) -> tuple[str, str]:
     if r["true"] is None:
         return (f"C18/hardware-view-raises/{(r.get('exc') or '?').split(':')[0]}",
                 f"HardwareView({case['model']!r}) raises {r.get('exc')}")
+    if parts["hier"] and not parts.get("short", True):
+        # which attribute path (for the message only; the verdict is Coq's part_short_on on the real outputs)
+        allk = {tuple(s) for s in (ALL_ATTR.get("all") or [])}
+        tr = {tuple(s) for s in r["true"]}
+        bad = sorted((s[:k], s) for s in tr for k in range(1, len(s)) if s[:k] in allk and s[:k] not in tr)
+        ex = bad[0] if bad else ((), ())
+        return (f"C18/short-name-hierarchy-broken/{'.'.join(ex[0]) or '?'}",
+                f"HardwareView({case['model']!r}): hw.{'.'.join(ex[1])} is True while its ancestor attribute "
+                f"hw.{'.'.join(ex[0])} is False (a shortened family name given to one of the families that share it): "
+                f"the short-name hierarchy is not prefix-closed ({len(bad)} such attribute paths)")
     if not parts["hier"]:
         return (f"C18/hierarchy-broken/{(case.get('seq') or case['model']).split('.')[0]}",
                 f"true sequences of {case['model']!r} are not prefix-closed")
@@ -424,12 +441,20 @@ def evaluate(cases, results, tables, tag="cases"):
     """Coq evaluates agree/holds (and the parts of holds) on the implementation outputs.  Every
     case file also checks that the Gen tables it is evaluated against are the tables the
     running implementation reported (key "tables": indices of cases in files where not)."""
+    ALL_ATTR["all"] = tables.get("all")
     if tables.get("db"):
         db_t, vs_t = table_terms(tables)
         defs = TABLE_DEFS + (f"Definition tables_ok : bool := Eval vm_compute in "
                               f"(db_eqb Src_db {db_t} && vendors_eqb Src_vendors {vs_t}).")
     else:       # the running code could not even prepare its database: every case reports the exception
         defs = "Definition tables_ok : bool := true."
+    # the attribute sequences the running code knows (true | false of parse_hw_model): the short-name hierarchy clause
+    # is evaluated against THEM (part_short_on), and they are compared with the model's all_sequences (agree)
+    if tables.get("all") is not None:
+        defs += (f"\nDefinition impl_all : list seq := {cseqs(tables['all'])}."
+                 "\nDefinition all_agree : bool := Eval vm_compute in set_eqb impl_all Src_all.")
+    else:
+        defs += "\nDefinition impl_all : list seq := Src_all.\nDefinition all_agree : bool := true."
     by_model = {}
     for c, r in zip(cases, results):
         by_model.setdefault(c["model"], r)
@@ -438,10 +463,12 @@ def evaluate(cases, results, tables, tag="cases"):
         ref = by_model[c["model"]]
         extra = ref["rb"]["digests"][:1] if ref is not r else []
         terms.append(case_term(r, extra))
-    preds = {"agree": "agree_C18", "holds": "holds_C18_full", "tables": "fun _ => tables_ok"}
+    preds = {"agree": "fun c => agree_C18 c && all_agree",
+             "holds": "fun c => holds_C18_full c && part_short_on impl_all c", "tables": "fun _ => tables_ok"}
     # strings that stand for no device (sibling pairs; parsed only): the clauses stated for EVERY string
-    preds_static = dict(preds, holds="fun c => part_hier c && part_chain c")
-    parts = {"hier": "part_hier", "vendor": "part_vendor", "runtime": "part_runtime", "chain": "part_chain"}
+    preds_static = dict(preds, holds="fun c => part_hier c && part_chain c && part_short_on impl_all c")
+    parts = {"hier": "part_hier", "vendor": "part_vendor", "runtime": "part_runtime", "chain": "part_chain",
+             "short": "part_short_on impl_all"}
     res = {k: set() for k in list(preds) + list(parts)}
     groups = [([i for i, c in enumerate(cases) if c["src"] != "sibling"], preds, tag),
               ([i for i, c in enumerate(cases) if c["src"] == "sibling"], preds_static, tag + "_static")]
@@ -528,7 +555,8 @@ def _run_once(ctx, last: bool) -> bool:
     def claimed(i):
         """a failing case counts unless it is a string that stands for no database key and fails only clauses
         that are not claimed for every string (vendor choice, runtime)"""
-        return not (cases[i]["src"] in static_src and i not in res["hier"] and i not in res["chain"])
+        return not (cases[i]["src"] in static_src and i not in res["hier"] and i not in res["chain"]
+                    and i not in res["short"])
     bad = [i for i in sorted(res["holds"]) if claimed(i)]
     if (missed or unsynth) and not bad:
         ctx.add_violation(core.Violation(
@@ -578,9 +606,19 @@ def _run_once(ctx, last: bool) -> bool:
         "level_note": META["note"],
     })
     sigs_seen = set()
+    # runner flag (an equality of two real outputs, not a Coq clause): the attribute names (true | false sequences of
+    # parse_hw_model) are the same set for every model string - the set the short-name clause is evaluated against
+    for i, r in enumerate(results):
+        if r.get("all_same") is False:
+            ctx.add_violation(core.Violation(
+                signature="C18/attribute-names-depend-on-model",
+                what=f"parse_hw_model({cases[i]['model']!r}): true | false sequences differ from the attribute set of "
+                     f"other model strings",
+                replay={"case": cases[i], "perms": perms, "impl": results[i], "parts": {"all_same": False}}))
+            break
     for i in bad:
         parts = {"hier": i not in res["hier"], "vendor": i not in res["vendor"], "runtime": i not in res["runtime"],
-                 "chain": i not in res["chain"]}
+                 "chain": i not in res["chain"], "short": i not in res["short"]}
         # (a cross-branch / sibling-pair string stands for no database key: it is outside the property's quantifier
         # except for the hierarchy and chain clauses, which C18_prefix_closed / C18_chain_exact state for EVERY model
         # string; such strings can belong to two vendor families at once, e.g. 'Cisco ... Nexus' with an XR hit)
